@@ -274,6 +274,41 @@ func run(r *mon.Run) {
 		r.Note("honest_exchanges", len(corpus))
 	}
 
+	// exchanges with a status outside 100..999 cannot be written, but they can be signed and verified in memory: if
+	// the library verifies them at all, edits of the response side must still be detected
+	if r.Shard == 0 {
+		for vi, ver := range gen.SXGVersions {
+			for _, st := range []int{0, 99, 1000, -1, 100000} {
+				g := r.Rand("odd-status", vi*10+st%7)
+				spec := gen.DefaultSXG(g, ver, ids[0], "example.com", 40, 16)
+				spec.Status = st
+				spec.RespHeaders = http.Header{"Content-Type": {"text/html"}, "X-One": {"1"}}
+				e, _, err := spec.Build()
+				if err != nil {
+					r.Eval("odd-status:not-signable")
+					continue
+				}
+				mid := spec.Date.Add(30 * time.Minute)
+				if _, ok := e.Verify(mid, ids[0].Fetcher(), log.New(io.Discard, "", 0)); !ok {
+					r.Eval("odd-status:not-verifiable")
+					continue
+				}
+				s := &signed{spec: spec, e: e, tuple: tupleOf(e), payload: spec.Payload, desc: fmt.Sprintf("odd-status %s status=%d", ver, st)}
+				for mut, f := range map[string]func(c *signedexchange.Exchange){
+					"status+1":      func(c *signedexchange.Exchange) { c.ResponseStatus++ },
+					"status=200":    func(c *signedexchange.Exchange) { c.ResponseStatus = 200 },
+					"header-added":  func(c *signedexchange.Exchange) { c.ResponseHeaders["X-Injected"] = []string{"1"} },
+					"header-edited": func(c *signedexchange.Exchange) { c.ResponseHeaders["X-One"] = []string{"2"} },
+					"payload-byte":  func(c *signedexchange.Exchange) { c.Payload[len(c.Payload)-1] ^= 1 },
+				} {
+					c := clone(e)
+					f(c)
+					judge(r, s, c, mid, ids[0].Fetcher(), "odd-status", mut, 0)
+				}
+			}
+		}
+	}
+
 	caseNo := 0
 	mine := func() bool { caseNo++; return r.Mine(caseNo) }
 	for ci, s := range corpus {
@@ -572,6 +607,15 @@ func run(r *mon.Run) {
 				pi.Params[sh.Key(pname)] = append(append([]byte{}, pi.Params[sh.Key(pname)].([]byte)...), 0)
 			})
 			sigEdit(pname+"-empty", func(pi *sh.ParameterisedIdentifier, pl *sh.ParameterisedList) { pi.Params[sh.Key(pname)] = []byte{} })
+		}
+		{
+			var sigBytes []byte
+			rewriteSig(s, func(pi *sh.ParameterisedIdentifier, pl *sh.ParameterisedList) { sigBytes = pi.Params["sig"].([]byte) })
+			// the same (r, s) in another encoding: changed signature bytes must not verify
+			for name, v := range gen.DERVariants(sigBytes) {
+				v := v
+				sigEdit("sig-reencoded="+name, func(pi *sh.ParameterisedIdentifier, pl *sh.ParameterisedList) { pi.Params["sig"] = v })
+			}
 		}
 		for _, pname := range []string{"date", "expires"} {
 			for _, d := range []int64{-1, 1, 3600, -3600, 604800} {
